@@ -292,6 +292,7 @@ pub struct Fill { pub usages: bool, pub file_cache: bool, pub file_definitions: 
 pub const DEFS_ONLY: Fill = Fill { usages: false, file_cache: true, file_definitions: false };
 pub const WITH_USAGES: Fill = Fill { usages: true, file_cache: true, file_definitions: false };
 pub const FULL: Fill = Fill { usages: true, file_cache: true, file_definitions: true };
+pub const DEFS_AND_FILE_DEFS: Fill = Fill { usages: false, file_cache: true, file_definitions: true };
 
 /// Solver-side import oracle (the real `is_fixture_imported_in_file` is replaced by this table).
 pub static mut IMP_C1: bool = false;
